@@ -757,7 +757,7 @@ class Emitter:
                 out.add('bg_ghost_reset_all();')
             out.add('%s(%s);' % (callee['cname'], ', '.join([target] + cargs)))
             if contracted:
-                out.add('bg_ghost_reset_all();')
+                out.add('bg_ghost_invalidate();')
             self.exc_check(out)
             return
         if 'stl' in ct.info:
@@ -1757,7 +1757,7 @@ class Emitter:
                     out.add('%s = %s;' % (ct.value_decl(t), call))
                     res = t
             if contracted:
-                out.add('bg_ghost_reset_all();')
+                out.add('bg_ghost_invalidate();')
             self.exc_check(out)
             return res
         return '(*%s)' % call if is_lv else call
